@@ -399,12 +399,18 @@ def get_parser(node, parse_name):
     """
     if parse_name in (None, "infer"):
         parse_name: str = infer(node)
-    parse_name: str = {
-        "class": "class_",
-        "sqlalchemy_hybrid": "sqlalchemy",
-        "sqlalchemy_table": "sqlalchemy",
-    }.get(parse_name, parse_name)
-    return getattr(import_module(".".join(("cdd", parse_name, "parse"))), parse_name)
+    # The package that holds a parser and the parser's own name are two things
+    module_name, function_name = {
+        "argparse": ("argparse_function", "argparse_ast"),
+        "argparse_ast": ("argparse_function", "argparse_ast"),
+        "argparse_function": ("argparse_function", "argparse_ast"),
+        "class": ("class_", "class_"),
+        "sqlalchemy_hybrid": ("sqlalchemy", "sqlalchemy_hybrid"),
+        "sqlalchemy_table": ("sqlalchemy", "sqlalchemy_table"),
+    }.get(parse_name, (parse_name, parse_name))
+    return getattr(
+        import_module(".".join(("cdd", module_name, "parse"))), function_name
+    )
 
 
 __all__ = [
